@@ -167,6 +167,19 @@ func main() {
 	meta["status_classes"] = sclasses
 	meta["status_wall_s"] = time.Since(t0).Seconds()
 
+	// ---- E5: error pages of concurrently failing requests (each must get its OWN page)
+	if rp.Kind == "" || rp.Kind == "pages" {
+		t0 = time.Now()
+		pcs, err := fr.RunConcurrentErrorPages(*tier)
+		if err != nil {
+			fatal(err)
+		}
+		writeJSONL(filepath.Join(*out, "pgcases.jsonl"), len(pcs), func(i int) any { return pcs[i] })
+		shards = append(shards, writeShards(*out, "pgcases", "pgcase", "pgcase_check", len(pcs), func(i int) string { return pcs[i].Coq() })...)
+		meta["page_cases"] = len(pcs)
+		meta["page_wall_s"] = time.Since(t0).Seconds()
+	}
+
 	// ---- E3: hostile client streams against the proxy in a child process
 	t0 = time.Now()
 	var hres []fr.HostileResult
